@@ -1,0 +1,34 @@
+// Copyright (c) The Bitcoin Core developers
+// Distributed under the MIT software license, see the accompanying
+// file COPYING or http://www.opensource.org/licenses/mit-license.php.
+
+#ifndef BITCOIN_UTIL_VERIF_HOOKS_H
+#define BITCOIN_UTIL_VERIF_HOOKS_H
+
+//! Instrumentation points for an external deterministic-simulation harness.
+//! Compiled in only with -DBITCOIN_VERIF; otherwise every macro expands to nothing.
+//! With the define on, the hooks call weak functions that are null (and skipped)
+//! unless the final executable provides them.
+
+#ifdef BITCOIN_VERIF
+extern "C" {
+//! Explicit scheduling point inside a region that has no library synchronisation call.
+void verif_yield(const char* site) __attribute__((weak));
+//! A plain (non-atomic) access to shared memory, for happens-before race checking.
+void verif_access(const void* addr, int is_write, const char* site) __attribute__((weak));
+//! Release / acquire edges established through atomics the harness cannot see.
+void verif_sync_release(const void* addr) __attribute__((weak));
+void verif_sync_acquire(const void* addr) __attribute__((weak));
+}
+#define VERIF_YIELD(site) do { if (verif_yield) verif_yield(site); } while (0)
+#define VERIF_ACCESS(addr, is_write, site) do { if (verif_access) verif_access((addr), (is_write), (site)); } while (0)
+#define VERIF_SYNC_REL(addr) do { if (verif_sync_release) verif_sync_release(addr); } while (0)
+#define VERIF_SYNC_ACQ(addr) do { if (verif_sync_acquire) verif_sync_acquire(addr); } while (0)
+#else
+#define VERIF_YIELD(site) do { } while (0)
+#define VERIF_ACCESS(addr, is_write, site) do { } while (0)
+#define VERIF_SYNC_REL(addr) do { } while (0)
+#define VERIF_SYNC_ACQ(addr) do { } while (0)
+#endif
+
+#endif // BITCOIN_UTIL_VERIF_HOOKS_H
